@@ -252,7 +252,18 @@ def readFromStream(substrate, size=-1, context=None):
                 if following is not None and not following:
                     raise error.EndOfStreamError(context=context)
 
-                substrate.seek(-len(following or ''), os.SEEK_CUR)
+                # more data is there: the stream just hands it out in
+                # pieces smaller than asked for
+                while following:
+                    received += following
+
+                    if len(received) == size:
+                        break
+
+                    following = substrate.read(size - len(received))
+
+                if len(received) == size:
+                    break
 
             stalled = len(received)
 
